@@ -71,7 +71,12 @@ def _run_one(args):
     err = None
     t0 = time.time()
     signal.alarm(TASK_TIMEOUT)
+    stale = isinstance(task, dict) and task.get("_stale_blackboard")
     try:
+        if stale:
+            from . import families
+            families.STALE[0] = True
+            rep.class_suffix = ":stale_attribute_blackboard"
         _driver.run_task(task, rep)
     except WatchdogTimeout:
         rep.violation(f"{_driver.ID}.task_terminates", "task", "hang", "task-watchdog", {"task": task})
@@ -79,6 +84,11 @@ def _run_one(args):
         err = traceback.format_exc()
     finally:
         signal.alarm(0)
+        if stale:
+            families.STALE[0] = False
+            # family-size counters of the drivers' vacuity guards count the regular tasks only
+            rep.counters = {"stale_blackboard:" + k: v for k, v in rep.counters.items()}
+            rep.count("stale_blackboard:tasks")
     # tag violations with the task that produced them
     for v in rep.violations:
         v["task_index"] = idx
@@ -137,6 +147,10 @@ def main():
 
     t0 = time.time()
     tasks = json.loads(json.dumps(list(driver.tasks(args.tier))))  # drivers always see JSON-pure tasks
+    if hasattr(driver, "stale_variant"):
+        # history deviation shared by several drivers (mc/families.py, STALE): the same task once more on meshes whose
+        # attribute blackboard was filled on another geometry before the vertices were moved to the tested positions
+        tasks += [dict(t, _stale_blackboard=True) for t in tasks if isinstance(t, dict) and driver.stale_variant(t, args.tier)]
     if args.only:
         tasks = [t for t in tasks if args.only in json.dumps(t)]
     if args.list_tasks:
@@ -289,6 +303,10 @@ def _replay(driver, pid, path):
     rep = Report()
     rep.stop_on = tuple(want[1:])
     signal.alarm(TASK_TIMEOUT)
+    if isinstance(data["task"], dict) and data["task"].get("_stale_blackboard"):
+        from . import families
+        families.STALE[0] = True
+        rep.class_suffix = ":stale_attribute_blackboard"
     try:
         driver.run_task(_detuple(data["task"]), rep)
     except BaseException as e:
